@@ -177,6 +177,28 @@ func runC13(seed uint64, n, t, victim int, crashes []int) c13Outcome {
 			return false
 		}
 		_ = post
+		// "applies every message exactly once in effect": a result the operator already delivered for an
+		// operation that is retired must still be refused after the restart, and nothing may be posted
+		pend := map[string]bool{}
+		for _, id := range postPending {
+			pend[id] = true
+		}
+		for id, bz := range v.ResultCache {
+			if pend[id] {
+				continue
+			}
+			var res types.Operation
+			if json.Unmarshal(bz, &res) != nil || res.Event == "" {
+				continue
+			}
+			boardBefore := w.Board.Len()
+			err := v.Svc.ProcessOperation(world.OpToDTO(&res))
+			if err == nil || w.Board.Len() != boardBefore {
+				out.Violation = "C13/retired-operation-answerable-again-after-restart"
+				out.Detail = fmt.Sprintf("after the restart the already delivered result of retired operation %s (%s) was accepted=%v and %d message(s) were posted again; crash %s", id[:6], res.Type, err == nil, w.Board.Len()-boardBefore, where)
+				return false
+			}
+		}
 		arm()
 		return true
 	}
